@@ -38,7 +38,9 @@ MANIFEST = dict(
     text="Theorems in lean/PdshVerif/Props/C14.lean about the model in lean/PdshVerif/Hostlist/Print.lean (spec: "
          "PrintSpec.lean); the model is executed against the real hostlist_ranged_string / hostlist_deranged_string "
          "(harness/hl_harness.c + hl_print_ops.h) on generated lists for every n from 1 to text length + 2 and against "
-         "`pdsh -q/-Q -w` of a scratch build near the 1024-byte boundary; the real code is also judged by the property "
+         "`pdsh -q/-Q -w` and `pdsh -w -^file` of a scratch build AND of an AddressSanitizer build of the same tree near the "
+         "1024 / 4095 / 8191-byte boundaries, and hostlist_shift_range / hostlist_pop_range until NULL (fixed stack buffers "
+         "inside hostlist.c) against the model; the real code is also judged by the property "
          "text restated on observables, which yields the failing (list, n) as replay. The form of the truncation test "
          "of hostlist_deranged_string (D14) and of list_push_hostlist's retry condition (D2/F14-XLOOP) is probed on every "
          "run and the model runs in those variants; the parser model used for the round trip runs in the variant probed "
@@ -79,7 +81,7 @@ def run(ctx):
                    "printed in both forms for EVERY n from 1 to text length + 2; one evaluation = one (list, form, n) "
                    "call; non-trivial = a list with >= 2 range records whose compressed text has a bracket or whose "
                    "expanded text has >= 3 hosts; distinct = distinct record dump"}
-    dist = {"calls": 0, "fits": 0, "truncating": 0, "exact-boundary": 0, "lists": 0, "exact-mode-lists": 0,
+    dist = {"calls": 0, "fits": 0, "truncating": 0, "exact-boundary": 0, "boundary": {}, "lists": 0, "exact-mode-lists": 0,
             "parseback": 0, "parseback-independent": 0, "cli": 0, "skipped-build-failed": 0, "origin": {}}
     if pr.build():
         variant = pr.probe_variant()
@@ -94,6 +96,11 @@ def run(ctx):
             for s in FIXED + load_corpus():
                 cases.append({"origin": "corpus", "ops": ["create " + hx(s)], "desc": s[:200].decode("latin1")})
             cases.append({"origin": "corpus", "ops": ["create " + hx(b"foo[1-2]-[0-1]")], "desc": "foo[1-2]-[0-1]"})
+            # ONE bracket group whose text has 1022..1025 bytes: the fixed buffers of hostlist_shift_range (1024) and
+            # hostlist_pop_range / hostlist_next_range (MAXHOSTRANGELEN) at their boundary
+            for plen in (21, 22, 23, 24):
+                s = b"g" * plen + b"[" + b",".join(b"%d" % k for k in range(101, 601, 2)) + b"]"
+                cases.append({"origin": "corpus", "ops": ["create " + hx(s)], "desc": "one group of %d bytes" % len(s)})
             cases.extend(small_scope(2 if ctx.quick() else 3))
             if not ctx.quick():
                 from vlib.printcheck import SHAPES
@@ -202,7 +209,7 @@ def sweep_lists(ctx, pr, cases, exact, cov, dist):
             if ent is None or len(ent) != len(text) + 2:
                 ctx.disagreement("hl harness answer", "psweep %s: `%s`" % (kind, isw[:200]), case)
             else:
-                judge_sweep(ctx, kind, recs, len(text), ent, dict(case, text=text[:300].decode("latin1")), dist)
+                judge_sweep(ctx, kind, recs, len(text), ent, dict(case, text=text[:300].decode("latin1")), dist, text=text)
             # parse back (real parser in process; Lean parser in the model)
             ib, mb = names["pback " + kind], mnames["pback " + kind]
             # the Lean parser runs in the probed variant (Cfg.probed): the two parsers must agree on every printed text
@@ -236,6 +243,18 @@ def sweep_lists(ctx, pr, cases, exact, cov, dist):
                         ctx.offender("%s-asan:%s%s" % (kname(kind), cls, fill),
                                      "hostlist_%s_string into an exact-size heap buffer of %s bytes: ASan reports %s" %
                                      (kname(kind), nn, cls), dict(case, kind=kname(kind), n=nn))
+        # hostlist_shift_range / hostlist_pop_range until NULL (fixed stack buffers inside hostlist.c, under ASan)
+        for which, fn in (("s", "hostlist_shift_range"), ("p", "hostlist_pop_range")):
+            ir, mr = names["pranges " + which], mnames["pranges " + which]
+            dist["range-calls"] = dist.get("range-calls", 0) + (0 if ir == "none" else ir.count("|") + 1)
+            if ir != mr:
+                ctx.disagreement("print model vs hostlist.c (%s until NULL)" % fn, "impl `%s` model `%s`" % (ir[:200], mr[:200]), case)
+            if ir != "none":
+                for piece in ir.split("|"):
+                    if len(unhx(piece)) >= 1023:
+                        bd = dist.setdefault("boundary", {})
+                        key = "%s, group text cut at its fixed buffer" % fn
+                        bd[key] = bd.get(key, 0) + 1
         if isx:
             dist["exact-mode-lists"] += 1
         if len(recs) >= 2 and (b"[" in texts.get("r", b"") or sum(r.count() for r in recs) >= 3):
@@ -380,6 +399,23 @@ def cli_check(ctx, pr, gen, dist, cov, only=None):
         dist["cli"] += 1
         dist["calls"] += 1
         fill = ":exact-fill" if flag == "-Q" and exact_fill(recs, 1024) else ""
+        d1024 = len(full) - 1023
+        if -2 <= d1024 <= 2:
+            key = "pdsh %s, text = 1023%+d bytes" % (flag, d1024)
+            dist.setdefault("boundary", {})[key] = dist.setdefault("boundary", {}).get(key, 0) + 1
+        if cli.asan and cls != "timeout":
+            # the same call in the AddressSanitizer build: a store outside wcoll_str[1024] is reported there
+            acls, aline = cli.targets(flag, ["-w", s.decode("latin1")], asan=True)
+            dist["cli-asan"] = dist.get("cli-asan", 0) + 1
+            if acls.startswith("crash:asan"):
+                ctx.offender("cli-" + acls[6:] + fill, "pdsh %s -w with a target text of %d bytes, AddressSanitizer build: %s" %
+                             (flag, len(full), acls), dict(case, pdsh=acls))
+                if not moob:
+                    ctx.disagreement("print model (opt_list) vs pdsh %s (ASan build)" % flag,
+                                     "%s, the model predicts no store outside wcoll_str" % acls, case)
+            elif (acls, aline) != (cls, line):
+                ctx.disagreement("pdsh %s: AddressSanitizer build vs normal build" % flag,
+                                 "%s `..%s` vs %s `..%s`" % (acls, (aline or b"")[-40:], cls, (line or b"")[-40:]), case)
         if cls != "ok":
             if cls.startswith("crash") or cls == "timeout":
                 ctx.offender("cli-crash" + fill, "pdsh %s -w with a target text of %d bytes: %s" % (flag, len(full), cls),
@@ -440,9 +476,9 @@ def xlist_check(ctx, pr, cli, dist, cov):
     pr.xvariant = "unchanged" if pcls == "timeout" else "fixed"
     cov.setdefault("variant_detected", {})["D2/F14-XLOOP repaired ((n *= 2) < 0x7fffff)"] = pr.xvariant == "fixed"
     ctx.log("list_push_hostlist behaves as the `%s` variant: the model runs with that switch" % pr.xvariant)
-    wants = [4093, 4094, 4095, 4097]
+    wants = [4092, 4093, 4094, 4095, 4096]
     if pr.xvariant == "fixed" or not ctx.quick():
-        wants += [8190, 8191, 9000, 20000]          # one and two doublings, exact fill of the doubled buffer
+        wants += [8188, 8189, 8190, 8191, 8192, 9000, 20000]      # one and two doublings, the doubled buffer's boundary
     for want in wants:
         names, total, cls, line = xlist_run(ctx, cli, want, 3 if pr.xvariant == "unchanged" else 20)
         recs = [Rec(nm, 0, 0, 0, True) for nm in names]
@@ -451,6 +487,22 @@ def xlist_check(ctx, pr, cli, dist, cov):
         dist["cli"] += 1
         dist["calls"] += 1
         case = {"origin": "cli-xlist", "exclusion_text_bytes": total, "hosts_in_file": len(names)}
+        for base in (4095, 8191):
+            if -2 <= total - (base - 1) <= 2:
+                key = "pdsh -w -^file, exclusion text = %d%+d bytes" % (base - 1, total - (base - 1))
+                dist.setdefault("boundary", {})[key] = dist.setdefault("boundary", {}).get(key, 0) + 1
+        if cli.asan and cls != "timeout":
+            # the heap block of list_push_hostlist under AddressSanitizer (realloc / doubling bookkeeping)
+            path = os.path.join(cli.cwd, "xfile%d" % want)
+            acls, aline = cli.targets("-q", ["-w", "keep1,keep2," + names[-1].decode(), "-w", "-^" + path], timeout=30,
+                                      asan=True)
+            dist["cli-asan"] = dist.get("cli-asan", 0) + 1
+            if acls.startswith("crash:asan"):
+                ctx.offender("cli-xlist-" + acls[6:], "pdsh -q -w .. -w -^file with a %d-byte exclusion text, "
+                             "AddressSanitizer build: %s" % (total, acls), dict(case, pdsh=acls))
+            elif (acls, aline) != (cls, line):
+                ctx.disagreement("pdsh -w -^file: AddressSanitizer build vs normal build",
+                                 "%s `%s` vs %s `%s`" % (acls, (aline or b"")[:40], cls, (line or b"")[:40]), case)
         if (cls == "timeout") != (m[1] == "diverge"):
             ctx.disagreement("print model (list_push_hostlist) vs pdsh -w -^file", "pdsh %s model %s" % (cls, m[1][:40]), case)
         elif cls == "ok":
